@@ -14,11 +14,20 @@ type libModel struct{}
 
 func (l *libModel) onZeroOpaque(e *Exec, st *State, t types.Type, r *Term) {
 	// zero values of library structs with a ghost model
+	name := ""
 	switch typeKey(t) {
-	case "bytes.Buffer", "strings.Builder":
-		if g, ok := e.prog.specs.Ghosts["buflen"]; ok {
-			m := st.ghostVar("buflen", specSort(g.Type))
-			st.ghost["buflen"] = mkStore(m, r, tZero)
+	case "bytes.Buffer":
+		name = "blen"
+	case "strings.Builder":
+		name = "wn"
+	}
+	if name != "" {
+		if e.prog.specs.lookupFunc("wsink", "") != nil {
+			st.assume(mkEq(mkApp("spec!wsink", SInt, r), r)) // a buffer is its own sink
+		}
+		if g, ok := e.prog.specs.Ghosts[name]; ok {
+			m := st.ghostVar(name, specSort(g.Type))
+			st.ghost[name] = mkStore(m, r, tZero)
 		}
 	}
 }
@@ -575,7 +584,7 @@ func (e *Exec) freshResults(st *State, rt types.Type, base string) Value {
 func (e *Exec) applyContract(st *State, c *Contract, sig *types.Signature, recv Value, args []Value, rt types.Type,
 	at ast.Node, name string) Value {
 	old := st.clone()
-	env := &SpecEnv{e: e, st: st, old: old, vars: map[string]Value{}, what: "call of " + name}
+	env := &SpecEnv{e: e, st: st, old: old, vars: map[string]Value{}, what: "call of " + name, rawArgs: map[string]Value{}}
 	if c.Pkg != "" {
 		if pk := e.prog.pkgs[c.Pkg]; pk != nil {
 			env.pkg = pk.Types
@@ -591,6 +600,7 @@ func (e *Exec) applyContract(st *State, c *Contract, sig *types.Signature, recv 
 			n = "recv"
 		}
 		env.vars[n] = recv
+		env.vars["recv"] = recv
 	}
 	for i := 0; i < sig.Params().Len(); i++ {
 		n := sig.Params().At(i).Name()
@@ -602,7 +612,11 @@ func (e *Exec) applyContract(st *State, c *Contract, sig *types.Signature, recv 
 		}
 		if i < len(args) {
 			env.vars[n] = e.convertAssign(st, args[i], sig.Params().At(i).Type())
+			env.rawArgs[n] = args[i]
 		}
+	}
+	if recv != nil {
+		env.rawArgs["recv"] = recv
 	}
 	env.oldVar = map[string]Value{}
 	for k, v := range env.vars {
@@ -684,6 +698,8 @@ type modTarget struct {
 	keys []leafKey
 	root *Term // ref (heap) / array id (mem) / index (ghost, may be nil)
 	elem *Term // mem: single element index (nil: the whole backing array)
+	freshOnly bool // mem, root unknown: only arrays allocated after allocMark may change
+	allocMark *Term
 	name string
 }
 
@@ -703,6 +719,29 @@ func (e *Exec) modTargets(env *SpecEnv, items []*SExpr) []modTarget {
 
 func (e *Exec) modTarget(env *SpecEnv, it *SExpr) []modTarget {
 	specs := e.prog.specs
+	// repr(x): every field of the object the actual argument x points to (when its static type at the
+	// call site is a pointer to a module struct); nothing when the dynamic type is not known there.
+	if it.Kind == "call" && it.Name == "repr" && len(it.Args) == 1 && it.Args[0].Kind == "ident" {
+		v, ok := env.rawArgs[it.Args[0].Name]
+		if !ok {
+			v = env.eval(it.Args[0])
+		}
+		sc, isS := v.(Scalar)
+		if !isS || sc.Typ == nil {
+			return nil
+		}
+		pt, isP := sc.Typ.Underlying().(*types.Pointer)
+		if !isP || reprOf(pt.Elem()) != rStruct {
+			return nil
+		}
+		var ls []leaf
+		leavesOf(pt.Elem(), "", &ls)
+		t := modTarget{kind: "heap", root: sc.T}
+		for _, lf := range ls {
+			t.keys = append(t.keys, leafKey{heapFamily(pt.Elem()) + lf.Path, lf.Sort})
+		}
+		return []modTarget{t}
+	}
 	// ghost
 	if it.Kind == "ident" {
 		if g, ok := specs.Ghosts[it.Name]; ok {
@@ -814,7 +853,12 @@ func (e *Exec) havocTargets(st *State, ts []modTarget) {
 				}
 			case "mem":
 				m := st.memMap(k.key, k.sort)
-				if t.root == nil {
+				if t.root == nil && t.freshOnly {
+					m2 := e.nm.fresh("M!"+k.key, m.Sort)
+					x := mkVar("x!f", SInt)
+					st.assume(mkForall([]*Term{x}, mkImplies(mkLe(x, t.allocMark), mkEq(mkSelect(m2, x), mkSelect(m, x))), mkSelect(m2, x)))
+					st.mem[k.key] = m2
+				} else if t.root == nil {
 					st.mem[k.key] = e.nm.fresh("M!"+k.key, m.Sort)
 				} else if t.elem != nil {
 					st.mem[k.key] = mkStore(m, t.root, mkStore(mkSelect(m, t.root), t.elem, e.nm.fresh("ev", k.sort)))
